@@ -48,7 +48,7 @@ rule("R-ORDER", safety.r_order, 20,
 rule("R-FORGET", safety.r_forget, 14,
      "every resolved move_into either copies the bytes and forgets self on every normal path (owning values) or clones exactly once without copying (lazy values); "
      "non-owning wrappers have no drop glue, owning handles have Drop")
-rule("R-EXPANDGUARD", safety.r_expandguard, 3,
+rule("R-EXPANDGUARD", safety.r_expandguard, 2,
      "every call of the abstract Mem::expand is dominated by a check that capacity is insufficient (CAP < needed or LEN == CAP)")
 rule("R-NONINTERFERENCE", safety.r_noninterference, 8,
      "tail source/count/destination, reservation and final LEN of a range handle's Drop do not depend on cursor fields written by next/next_back")
